@@ -323,6 +323,12 @@ func prepareBatch(ctx *Ctx, res *Result, in *Input, variants []wl.Variant, epi i
 			for _, u := range sc.Units {
 				if e, bad := b.CompErrs[u.Name]; bad {
 					u.CompErr = e
+					if d := os.Getenv("VERIF_DEBUG_DIR"); d != "" {
+						os.MkdirAll(d, 0o755)
+						os.WriteFile(filepath.Join(d, u.Name+".y"), []byte(u.Text), 0o644)
+						os.WriteFile(filepath.Join(d, u.Name+".err"), []byte(e), 0o644)
+						os.WriteFile(filepath.Join(d, u.Name+".out"), u.Out, 0o644)
+					}
 				}
 			}
 		}
